@@ -59,6 +59,12 @@ where
             return Err(InvalidView);
         }
 
+        // The root object is read from the last `size_of::<T::Archived>()` bytes
+        // of the buffer, anything shorter cannot hold the archived value.
+        if data_bytes.len() < mem::size_of::<T::Archived>() {
+            return Err(InvalidView);
+        }
+
         let view = unsafe { rkyv::archived_root::<T>(data_bytes) };
 
         Ok(Self { data, view })
